@@ -446,8 +446,12 @@ def _discharge_par(E, obs, tier, jobs, log, inproc_ms, timeout, solvers, refine)
     d = tmpdir()
     pids = []
     t0 = time.time()
+    # dynamic distribution: the workers pull the next few obligations from a shared counter, so that a
+    # handful of hard queries (each up to the portfolio time-out) end up on different workers
+    import multiprocessing
+    nxt = multiprocessing.Value("i", 0)
+    chunk = max(1, min(8, len(todo) // (nw * 6)))
     for w in range(nw):
-        mine = [(i, o) for i, o in enumerate(todo) if i % nw == w]
         path = os.path.join(d, "res_%d_%d.json" % (os.getpid(), w))
         pid = os.fork()
         if pid == 0:
@@ -455,11 +459,25 @@ def _discharge_par(E, obs, tier, jobs, log, inproc_ms, timeout, solvers, refine)
             try:
                 global _tmpdir
                 _tmpdir = None
-                st = _discharge(E, [o for _, o in mine], tier, 2, None, inproc_ms, timeout, solvers, refine)
-                res = [(i, o.status, o.solver, o.time, o.model, o.note) for i, o in mine]
-                with open(path + ".tmp", "w") as f:
-                    json.dump({"res": res, "stats": st}, f, default=str)
-                os.rename(path + ".tmp", path)
+                res = []
+                st = {"inproc": 0, "portfolio": 0, "solver_s": 0.0, "by_solver": {}}
+                while True:
+                    with nxt.get_lock():
+                        lo = nxt.value
+                        nxt.value = lo + chunk
+                    if lo >= len(todo):
+                        break
+                    mine = list(enumerate(todo))[lo:lo + chunk]
+                    s1 = _discharge(E, [o for _, o in mine], tier, 4, None, inproc_ms, timeout, solvers, refine)
+                    res += [(i, o.status, o.solver, o.time, o.model, o.note) for i, o in mine]
+                    st["inproc"] += s1["inproc"]
+                    st["portfolio"] += s1["portfolio"]
+                    st["solver_s"] += s1["solver_s"]
+                    for k, v in s1["by_solver"].items():
+                        st["by_solver"][k] = st["by_solver"].get(k, 0) + v
+                    with open(path + ".tmp", "w") as f:
+                        json.dump({"res": res, "stats": st}, f, default=str)
+                    os.rename(path + ".tmp", path)
                 cleanup()
             except BaseException as e:  # noqa
                 import traceback
@@ -467,19 +485,18 @@ def _discharge_par(E, obs, tier, jobs, log, inproc_ms, timeout, solvers, refine)
                 code = 3
             finally:
                 os._exit(code)
-        pids.append((pid, path, mine))
+        pids.append((pid, path, None))
     stats = {"inproc": 0, "portfolio": 0, "solver_s": 0.0, "by_solver": {}, "workers": nw}
+    returned = set()
     for pid, path, mine in pids:
         _, status = os.waitpid(pid, 0)
         if not os.path.exists(path):
-            for i, o in mine:
-                o.status = "unknown"
-                o.note = "worker failed"
             continue
         with open(path) as f:
             data = json.load(f)
         os.unlink(path)
         for (i, st, solver, tm, model, note) in data["res"]:
+            returned.add(i)
             o = todo[i]
             o.status, o.solver, o.time, o.model, o.note = st, solver, tm, model, note
         stt = data["stats"]
@@ -488,6 +505,10 @@ def _discharge_par(E, obs, tier, jobs, log, inproc_ms, timeout, solvers, refine)
         stats["solver_s"] += stt["solver_s"]
         for k, v in stt["by_solver"].items():
             stats["by_solver"][k] = stats["by_solver"].get(k, 0) + v
+    for i, o in enumerate(todo):
+        if i not in returned:
+            o.status = "unknown"
+            o.note = "worker failed"
     stats["wall_s"] = time.time() - t0
     return stats
 
